@@ -229,7 +229,12 @@ def extract_ce(pid, spec, mdir, g, h, row, tier_cfgs):
             if pat != "*":
                 break
     log(f"[{pid}] counterexample extraction for {short(h)} keys={keys} (replay mode {rec['mode']})")
-    tests, out = R.kani_counterexample(mdir, g, h, tier_cfgs)
+    # primary: CBMC trace on the goto binary of the verdict run (slicing on); fallback: Kani's own concrete playback
+    tests, note = R.cbmc_counterexample(mdir, h, keys)
+    rec["ce_source"] = "cbmc --trace on the verdict run's goto binary (" + note + ")"
+    if not tests:
+        tests, out = R.kani_counterexample(mdir, g, h, tier_cfgs)
+        rec["ce_source"] = "cargo kani --concrete-playback=print (after: " + note + ")"
     chosen = []
     for chk, name, src in tests:
         k = R.fail_key({"description": chk.strip('"') if "concat" in chk else chk, "category": "assertion", "function": ""})
